@@ -1018,6 +1018,13 @@ void *__wrap_cjet_calloc(size_t nmemb, size_t size)
 
 static struct dstr out;
 
+#ifdef SIMK_FUZZ
+static void reply(void)
+{
+	ds_clear(&out);
+}
+static char *fuzz_next_line(void);
+#else
 static void reply(void)
 {
 	ds_put(&out, "\n");
@@ -1033,9 +1040,17 @@ static void reply(void)
 	ds_clear(&out);
 }
 
+#endif
+
 static char *linebuf;
 static size_t linecap;
 
+#ifdef SIMK_FUZZ
+static char *read_line(void)
+{
+	return fuzz_next_line();
+}
+#else
 static char *read_line(void)
 {
 	size_t len = 0;
@@ -1065,6 +1080,8 @@ static char *read_line(void)
 		linebuf[len++] = c;
 	}
 }
+
+#endif
 
 static int hexval(int c)
 {
@@ -1548,7 +1565,14 @@ int __wrap_epoll_wait(int epfd, struct epoll_event *events, int maxevents, int t
 	batch_max = maxevents;
 	for (;;) {
 		char *line = read_line();
+#ifdef SIMK_FUZZ
+		if (!line) {
+			pending_abort = 1; /* end of the script: leave the loop through its error exit, all clean-up code runs */
+			break;
+		}
+#else
 		if (!line) _exit(0); /* driver went away */
+#endif
 		int r = handle_command(line);
 		if (r < 0) _exit(0);
 		if (r == 1) break;
@@ -1567,6 +1591,9 @@ int __wrap_epoll_wait(int epfd, struct epoll_event *events, int maxevents, int t
 	return n_batch;
 }
 
+#ifdef SIMK_FUZZ
+#include "simk_fuzz.inc"
+#else
 int main(int argc, char **argv)
 {
 	signal(SIGPIPE, SIG_IGN);
@@ -1599,3 +1626,4 @@ int main(int argc, char **argv)
 	}
 	return ret;
 }
+#endif
